@@ -29,6 +29,7 @@ Fixpoint wf (v : pyval) : bool :=
 Section Chk.
   Variable cf : gconf.
   Variable r : Z.
+  Variable pb : nat -> pyval -> bool.      (* what the user callables of Is[...] answer *)
 
   Definition items (y : pyval) : list pyval := match items_of y with Some l => l | None => [] end.
   Definition len0 (y : pyval) : bool := match items y with [] => true | _ => false end.
@@ -84,6 +85,7 @@ Section Chk.
            end) hs 0
     | HLiteral vs => isinst y (map type_of vs) && existsb (py_eq y) vs
     | HType cs => isinst y [c_type] && match issubcls y cs with Some b => b | None => false end
+    | HAnnot mh vs => (if ignorable mh then true else chk mh y) && forallb (fun v => vmean pb v y) vs
     end.
 
   Definition check (h : hint) (y : pyval) : bool := if ignorable h then true else chk h y.
